@@ -655,6 +655,9 @@ func notifOrder(all []event) []string {
 }
 
 func runProbe(n, us int, ownDeadline bool) Result {
+	if n < 1 || n > 50000 || us < 0 {
+		panic("hxlib: probe needs 1 <= n <= 50000 and a non-negative timeout")
+	}
 	var sb strings.Builder
 	sb.WriteByte('[')
 	for i := 1; i <= n; i++ {
